@@ -227,14 +227,26 @@ func checkC19(c C19Case) Verdict {
 		// positions inside a branch that does not run ({else}, {ifempty}, {default} with this data) are skipped
 		dead := false
 		var alt []bool
+		var loops []string // per open block: the condition that holds in a later iteration only ("" outside loops)
 		for i := 0; i < at; i++ {
 			for _, b := range c19Blocks {
 				switch c.Lines[i] {
 				case b[0]:
 					alt = append(alt, false)
+					switch {
+					case strings.HasPrefix(b[0], "{foreach $i"):
+						loops = append(loops, "$i == 2")
+					case strings.HasPrefix(b[0], "{for $k"):
+						loops = append(loops, "$k == 1")
+					case strings.HasPrefix(b[0], "{msg"):
+						loops = append(loops, "msg")
+					default:
+						loops = append(loops, "")
+					}
 				case b[2]:
 					if len(alt) > 0 {
 						alt = alt[:len(alt)-1]
+						loops = loops[:len(loops)-1]
 					}
 				}
 				if b[1] != "" && c.Lines[i] == b[1] && len(alt) > 0 {
@@ -258,6 +270,23 @@ func checkC19(c C19Case) Verdict {
 				// a call whose params sit on the following lines: the failure is still reported at the {call} line
 				failing = []string{"{call ns.d1.t}", "{param x: $a /}", "{param y}", "content {$a}", "{/param}", "{/call}"}
 			}
+		}
+		// inside a loop the print fails in a later iteration only (the interpreter has been past this line,
+		// and past the lines after it, before)
+		laterIteration := ""
+		for _, l := range loops {
+			if l != "" {
+				laterIteration = l
+			}
+		}
+		if laterIteration == "msg" {
+			laterIteration = "" // (no commands but print and call inside a message)
+		}
+		if depth == 0 && laterIteration != "" && (c.Fault/4)%2 == 1 { // (that bit means something else at depth > 0)
+			failing = []string{"{" + laterIteration + " ? $a.nokey.deeper : 'fine'}"}
+		}
+		if depth > 0 && laterIteration != "" && (c.Fault/4)%2 == 0 {
+			failing = []string{"{if " + laterIteration + "}{call ns.d1.t /}{/if}"}
 		}
 		// a fourth shape: an obligatory print directive (an application setting) rejects one value
 		strict := c.Fault >= 32
